@@ -414,7 +414,47 @@ func ruleU3(c *Ctx, id string) {
 							okW = false
 						}
 						if w.Val != nil {
+							vals := bwdAll(w.Val)
+							// an array filled by a library routine (binary.LittleEndian.PutUint64(verf[:], x), rand.Read(verf[:]))
+							// takes its value from that call: follow the call and its arguments
 							for v := range bwdAll(w.Val) {
+								var arr ssa.Value
+								if ld, isL := v.(*ssa.UnOp); isL && ld.Op == token.MUL {
+									arr = ld.X
+								}
+								if _, isA := v.(*ssa.Alloc); isA {
+									arr = v
+								}
+								if arr == nil {
+									continue
+								}
+								for _, r := range refs(arr) {
+									sl, isS := r.(*ssa.Slice)
+									if !isS {
+										continue
+									}
+									for _, r2 := range refs(sl) {
+										cl, isC := r2.(*ssa.Call)
+										if !isC {
+											continue
+										}
+										g := staticCallee(cl)
+										if g == nil || funcPkg(g) == nil {
+											continue
+										}
+										switch funcPkg(g).Path() {
+										case "encoding/binary", "crypto/rand", "math/rand":
+											vals[cl] = true
+											for _, a := range cl.Call.Args {
+												for v2 := range bwdAll(a) {
+													vals[v2] = true
+												}
+											}
+										}
+									}
+								}
+							}
+							for v := range vals {
 								if cl, ok := v.(*ssa.Call); ok {
 									if cal := staticCallee(cl); cal != nil && funcPkg(cal) != nil {
 										pp := funcPkg(cal).Path()
